@@ -3,9 +3,11 @@
    n-field table; recast after melt rebuilds every row cell for cell, one output row per input row in ascending key order,
    when keys are unique (the row-building code of recast_model, named recast_group / recast_cell, on the sorted + grouped
    melt); pivot's cell law (pivot_cells, the fold pivot_model runs per f1-group); fromdicts(dicts(t)) = t and
-   fromcolumns(columns(t)) = t; the frame of unpack (all other cells unchanged, one cell per new field).  split / splitdown are modelled as written
-   (model/Reshape.v), tied by the correspondence, and judged on every run on the implementation's output (not mechanised). *)
-From Verif Require Import PyVal Rows ComparableGen Sort Joins JoinRel Basics Reductions Reshape ReshapeFacts RecastFacts PivotFacts DictsFacts UnpackFacts.
+   fromcolumns(columns(t)) = t; the frame of unpack (all other cells unchanged, one cell per new field); split / splitdown with a
+   literal separator: the parts joined by the separator give the string back, no part contains it, one more part than
+   separators, and the row built per part has that part at the split field and the row's own cell everywhere else
+   (SplitFacts.v).  capture and regex separators are judged on every run on the implementation's output (not mechanised). *)
+From Verif Require Import PyVal Rows ComparableGen Sort Joins JoinRel Basics Reductions Reshape ReshapeFacts RecastFacts PivotFacts DictsFacts UnpackFacts SplitFacts.
 From Coq Require Import Sorted.
 
 Theorem C14_transpose_involutive : forall n hdr t, (1 <= n)%nat -> rect n (hdr :: t) ->
@@ -97,6 +99,32 @@ Theorem C14_unpack_sequence_cells : forall (n : nat) (missing : val) (b : bool) 
   length cells = n /\ (forall j, (j < n)%nat -> nth j cells VNone = if (j <? length l)%nat then nth j l VNone else missing).
 Proof. exact unpack_cells_seq. Qed.
 
+(* split / splitdown with a literal separator (split_on is the splitter of splitdown_model, split_cell its cell function):
+   sep.join(parts) = s, no part contains sep, |parts| = 1 + occurrences of sep *)
+Theorem C14_split_parts_rejoin : forall sep s, join_with sep (split_on sep [] s) = s.
+Proof. exact split_on_join. Qed.
+
+Theorem C14_split_parts_have_no_separator : forall sep s, Forall (fun p => ~ In sep p) (split_on sep [] s).
+Proof. intros sep s. exact (split_on_no_sep sep [] s (fun H => H)). Qed.
+
+Theorem C14_split_part_count : forall sep s,
+  length (split_on sep [] s) = S (length (filter (fun c => Z.eqb c sep) s)).
+Proof. intros sep s. exact (split_on_count sep [] s). Qed.
+
+(* the row splitdown emits for one part: one cell per header position, the part at the split field i, the row's own cell
+   at every other position; it exists whenever the row is at least as long as the header *)
+Theorem C14_splitdown_row_frame : forall (r : row) (i : Z) (part : list Z) (n : nat) (out : row),
+  mapM (fun j => if Z.eqb j i then Ok (VStr part) else match py_nth r j with Some v => Ok v | None => Err IndexErr end)
+       (zrange n 0%Z) = Ok out ->
+  length out = n /\
+  forall k, (k < n)%nat -> nth_error out k = if Z.eqb (Z.of_nat k) i then Some (VStr part) else py_nth r (Z.of_nat k).
+Proof. intros r i part n out. exact (split_row_frame r i (VStr part) n out). Qed.
+
+Theorem C14_splitdown_row_exists : forall (r : row) (i : Z) (part : list Z) (n : nat), (n <= length r)%nat ->
+  exists out, mapM (fun j => if Z.eqb j i then Ok (VStr part) else match py_nth r j with Some v => Ok v | None => Err IndexErr end)
+                   (zrange n 0%Z) = Ok out.
+Proof. intros r i part n. exact (split_row_ok r i (VStr part) n). Qed.
+
 (* melt emits the same number of rows for every input row when no cell is missing (one per variable) *)
 Theorem C14_rows_times_variables : forall (A B : Type) (f : A -> list B) (l : list A) k,
   (forall x, In x l -> length (f x) = k) -> length (flat_map f l) = (length l * k)%nat.
@@ -138,6 +166,16 @@ Example C14_ex_pivot :
       [VStr (zs "w"); VNum KInt (Fin 5); VStr (zs "-")]], None).
 Proof. vm_compute. reflexivity. Qed.
 
+(* splitdown on the operator model: the other cells are repeated on every emitted row *)
+Example C14_ex_splitdown :
+  splitdown_model (VStr (zs "b")) 44
+    [[VStr (zs "a"); VStr (zs "b"); VStr (zs "c")];
+     [VNum KInt (Fin 1); VStr (zs "x,y,"); VNone]; [VNum KInt (Fin 2); VStr (zs "z"); VStr (zs "w")]]
+  = ([[VStr (zs "a"); VStr (zs "b"); VStr (zs "c")];
+      [VNum KInt (Fin 1); VStr (zs "x"); VNone]; [VNum KInt (Fin 1); VStr (zs "y"); VNone]; [VNum KInt (Fin 1); VStr []; VNone];
+      [VNum KInt (Fin 2); VStr (zs "z"); VStr (zs "w")]], None).
+Proof. vm_compute. reflexivity. Qed.
+
 Print Assumptions C14_transpose_involutive.
 Print Assumptions C14_pivot_cell_law.
 Print Assumptions C14_pivot_groups_of_a_sorted_stream.
@@ -149,3 +187,8 @@ Print Assumptions C14_recast_after_melt.
 Print Assumptions C14_recast_cell_is_the_melted_value.
 Print Assumptions C14_unflatten_flatten_id.
 Print Assumptions C14_rows_times_variables.
+Print Assumptions C14_split_parts_rejoin.
+Print Assumptions C14_split_parts_have_no_separator.
+Print Assumptions C14_split_part_count.
+Print Assumptions C14_splitdown_row_frame.
+Print Assumptions C14_splitdown_row_exists.
